@@ -858,13 +858,20 @@ const HAND: &[(&str, &str)] = &[
 	("err", r#""array""#),
 	("err", r#"{"type":"record","name":"R","fields":[{"name":"me","type":"R"}]}"#),
 	("err", r#"{"type":"record","name":"A","fields":[{"name":"b","type":{"type":"record","name":"B","fields":[{"name":"a","type":"A"}]}}]}"#),
+	// the same unconditional cycles where no chain of record fields leads to them from the root
+	("err", r#"["null",{"type":"record","name":"N","fields":[{"name":"v","type":"int"},{"name":"next","type":"N"}]}]"#),
+	("err", r#"{"type":"array","items":{"type":"record","name":"A","fields":[{"name":"a","type":"A"}]}}"#),
+	("err", r#"{"type":"record","name":"Root","fields":[{"name":"xs","type":{"type":"array","items":{"type":"record","name":"A","fields":[{"name":"a","type":"A"}]}}}]}"#),
+	("err", r#"{"type":"map","values":{"type":"record","name":"A","fields":[{"name":"b","type":{"type":"record","name":"B","fields":[{"name":"a","type":"A"}]}}]}}"#),
+	("err", r#"{"type":"record","name":"Root","fields":[{"name":"m","type":{"type":"map","values":"A"}},{"name":"o","type":["null",{"type":"record","name":"A","fields":[{"name":"b","type":{"type":"record","name":"B","fields":[{"name":"a","type":"A"}]}}]}]}]}"#),
 	("ok", r#"{"type":"record","name":"R","fields":[{"name":"me","type":["null","R"]}]}"#),
 	("ok", r#"{"type":"record","name":"R","fields":[{"name":"me","type":{"type":"array","items":"R"}}]}"#),
 	("ok", r#"{"type":"record","name":"R","namespace":"x","fields":[{"name":"a","type":{"type":"enum","name":"E","symbols":["A"]}},{"name":"b","type":"E"},{"name":"c","type":"x.E"}]}"#),
 	("ok", r#"{"type":"record","name":"x.R","fields":[{"name":"a","type":{"type":"enum","name":"E","namespace":"","symbols":["A"]}},{"name":"b","type":".E"}]}"#),
 	("ok", r#"{"type":"bytes","logicalType":"decimal","precision":4}"#),
 	("ok", r#"{"type":"bytes","logicalType":"decimal","precision":4,"scale":2}"#),
-	("err", r#"{"type":"bytes","logicalType":"decimal","scale":2}"#),
+	// (rejected by the crate; the specification would have the invalid logical type ignored: D31)
+	("any", r#"{"type":"bytes","logicalType":"decimal","scale":2}"#),
 	("err", r#"{"type":"int","type":"long"}"#),
 	("err", r#"{"type":"fixed","name":"F","size":-1}"#),
 	("err", r#"{"type":"fixed","name":"F","size":1.5}"#),
@@ -1035,9 +1042,14 @@ pub fn generate_graph(stream: &str, seed: u64, n: usize, emit: &mut dyn FnMut(St
 					// a node nothing refers to (as left behind by `nodes_mut().pop()` / edits),
 					// holding a key that is exactly one past the end, further out, or valid
 					let len = raw.len() + 1;
-					let k = match rng.gen_range(0..4) {
+					let k = match rng.gen_range(0..6) {
 						0 | 1 => len,
 						2 => len + rng.gen_range(1..3),
+						// keys no allocation can hold: a comparison made in a signed or narrower
+						// type lets them through (`usize::MAX` is "-1", 2^63 is `isize::MIN`)
+						3 => *[usize::MAX, 1usize << 63, (1usize << 63) + len, isize::MAX as usize, u32::MAX as usize, (u32::MAX as usize) + 1 + rng.gen_range(0..len)]
+							.choose(&mut rng)
+							.unwrap(),
 						_ => rng.gen_range(0..len),
 					};
 					let reg = match rng.gen_range(0..4) {
@@ -1233,8 +1245,43 @@ pub fn run_chain(line: &str) -> Result<String, String> {
 	})
 }
 
+/// `diamond <n>`: records R0 … Rn, each Ri with two fields of type R(i+1) (defined in place in the
+/// first, referred to by name in the second), Rn empty: an acyclic document of n levels in which
+/// the number of PATHS from the root doubles at every level. Construction must take time
+/// proportional to the document, not to the number of paths: the parse runs on its own thread and
+/// is given 20 seconds.
+pub fn run_diamond(line: &str) -> Result<String, String> {
+	let mut r = R::new(line);
+	let _ = r.tok()?;
+	let n = r.n()?;
+	fn level(i: usize, n: usize) -> String {
+		if i == n {
+			format!(r#"{{"type":"record","name":"R{i}","fields":[]}}"#)
+		} else {
+			format!(
+				r#"{{"type":"record","name":"R{i}","fields":[{{"name":"a","type":{}}},{{"name":"b","type":"R{}"}}]}}"#,
+				level(i + 1, n),
+				i + 1
+			)
+		}
+	}
+	let doc = level(0, n);
+	let (tx, rx) = std::sync::mpsc::channel();
+	std::thread::spawn(move || {
+		let res = match doc.parse::<serde_avro_fast::Schema>() {
+			Ok(s) => format!("ok {}", s.rabin_fingerprint().len()),
+			Err(_) => "err".into(),
+		};
+		let _ = tx.send(res);
+	});
+	Ok(rx.recv_timeout(std::time::Duration::from_secs(20)).unwrap_or_else(|_| "timeout".into()))
+}
+
 pub fn generate_chain(emit: &mut dyn FnMut(String)) {
 	for n in [1usize, 10, 100, 1000, 50000] {
 		emit(format!("chain {n}"));
+	}
+	for n in [1usize, 5, 20, 36] {
+		emit(format!("diamond {n}"));
 	}
 }
